@@ -368,6 +368,49 @@ def h_alias_ops(env, N, which, r=0):
 h_alias_ops.uses_rng = True
 
 
+REQUERY = {
+    # query on a state: result on the long-lived object after an in-place change == result on a freshly built equal object
+    'expect_list': lambda M, s, a: s.expect(a),
+    'entropy': lambda M, s, a: s.entropy([0]),
+    'density_matrix': lambda M, s, a: (lambda d: (d.gs, d.ps, d.cs))(s.density_matrix),
+    'to_map': lambda M, s, a: (lambda m: (m.gs, m.ps))(s.to_map()),
+    'to_qutip': lambda M, s, a: s.to_qutip().full(),
+    'tokenize': lambda M, s, a: s.tokenize(),
+    'stabilizers': lambda M, s, a: (lambda t: (t.gs, t.ps))(s.stabilizers),
+    'copy': lambda M, s, a: (lambda c: (c.gs, c.ps, c.r))(s.copy()),
+    'repr': lambda M, s, a: repr(s),
+}
+
+
+def h_requery(env, N, r, name, change):
+    """stale-state guard: query, change the receiver in place (sign-only change = two rotations by one generator, or a
+    single rotation), query again -- the second answer must be the answer a freshly constructed equal object gives"""
+    from .c13 import same
+    M = Mods(env)
+    gs, ps = sym_state(env, N)
+    state = mk_state(M, env, gs, ps, r)
+    obs = M.pa.PauliList(env.bits('obs', (1, 2 * N)), env.signs('obs_sign', (1,)))
+    q = REQUERY[name]
+    first = env.run(lambda: q(M, state, obs))
+    env.goal('first_no_exception', b_not(first.raised))
+    gg = env.bits('gen', (2 * N,))
+    G = M.pa.Pauli(gg.copy(), 0)
+    mut = env.run((lambda: state.rotate_by(G).rotate_by(G)) if change == 'signs' else (lambda: state.rotate_by(G)))
+    env.goal('change_no_exception', b_not(mut.raised))
+    fresh = M.st.StabilizerState(state.gs.copy(), ps=state.ps.copy()).set_r(state.r)
+    second = env.run(lambda: q(M, state, obs))
+    want = env.run(lambda: q(M, fresh, obs))
+    env.goal('second_no_exception', b_not(b_or(second.raised, want.raised)))
+    if second.value is not None and want.value is not None:
+        a, b = second.value, want.value
+        if name == 'to_qutip' and not env.symbolic:
+            a, b = np.asarray(a), np.asarray(b)
+        env.goal('second_answer_is_the_fresh_answer', (a == b) if isinstance(a, str) else same(a, b))
+
+
+h_requery.uses_rng = True
+
+
 def jobs(tier):
     J = []
     for N in (1, 2):
@@ -387,6 +430,15 @@ def jobs(tier):
             J.append(dict(harness=('c17', 'h_copy'), params=dict(N=3, kind=kind), timeout_s=600))
         for name in ('expect_list', 'entropy', 'sample', 'to_map', 'tokenize_state', 'matmul', 'neg', 'rmul', 'tokenize', 'trace', 'weight', 'getitem', 'rotate_by', 'measure', 'diagonalize_pauli'):
             J.append(dict(harness=('c17', 'h_query'), params=dict(N=3, name=name), timeout_s=900, cost=60, max_paths=8000))
+    for N in (1, 2):
+        for name in REQUERY:
+            if name in ('repr', 'to_qutip') and N == 2:
+                continue
+            for change in ('signs', 'strings'):
+                for r in ((0, 1) if N == 2 else (0,)):
+                    if name == 'entropy' and r == N:
+                        continue
+                    J.append(dict(harness=('c17', 'h_requery'), params=dict(N=N, r=r, name=name, change=change), timeout_s=600, cost=15, max_paths=6000))
     for kind in ('Pauli', 'PauliList', 'CliffordMap', 'StabilizerState', 'StabilizerState1'):
         J.append(dict(harness=('c17', 'h_repr'), params=dict(N=1, kind=kind), max_paths=5000))
     from .c09 import tuples
